@@ -29,7 +29,8 @@ RULE = ('plan = 2-4 clients (distinct certificate identities, optionally '
         'at least one blocked lock acquisition (real contention) and two '
         'sessions that differ in identity and version. Distinct = distinct '
         'switch sequence (from, to, reason, file:line) x workload digest.')
-PROBES = ['session_error_path_concurrent', 'contention', 'preempt_fired', 'preempt_inside_engine',
+PROBES = ['session_error_path_concurrent', 'contention', 'preempt_fired',
+          'yield_at_lock_release', 'preempt_inside_engine',
           'preempt_inside_batch_loop', 'witness_order_search_used',
           'idless_in_batch', 'cross_owner_read', 'version_gated_op']
 REAL_VS_STUB = {
@@ -86,7 +87,16 @@ def generate(rng, tier, index):
         for j in range(r.randint(2, 5)):
             x = r.random()
             if j == 0 or x < 0.3:
-                op = gen.gen_create(ctx, ver, ai, want_mask=12)
+                z = r.random()
+                if z < 0.2 and ver >= (1, 0):
+                    # slow, self-contained work inside a request (key pair
+                    # generation) - the window in which a lock must not be
+                    # given up
+                    op = gen.gen_keypair(ctx, ver, ai)
+                elif z < 0.3 and j > 0:
+                    op = gen.gen_derive(ctx, ver, ai)
+                else:
+                    op = gen.gen_create(ctx, ver, ai, want_mask=12)
                 items = [op]
                 y = r.random()
                 if y < 0.35:
@@ -164,9 +174,15 @@ def generate(rng, tier, index):
         to = 's%d' % r.randrange(nact) if r.random() < 0.7 else None
         preempts.append([task, min(pt, MAX_POINT), to])
     tiebreaks = [r.randrange(4) for _ in range(r.choice([0, 2, 6, 12]))]
+    # lock releases after which the releasing session yields to another
+    # runnable one: none / every release / a few chosen ones
+    y = r.random()
+    ry = None if y < 0.35 else 'all' if y < 0.7 else \
+        sorted(set(r.randrange(1, 14) for _ in range(r.choice([1, 2, 3]))))
     return {'actors': actors, 'policies': policies,
             'seed': r.randrange(1 << 30), 'scripts': scripts,
-            'preempts': preempts, 'tiebreaks': tiebreaks}
+            'preempts': preempts, 'tiebreaks': tiebreaks,
+            'release_yields': ry}
 
 
 def owners(path):
@@ -227,7 +243,8 @@ def execute(plan):
                                preempts=plan['preempts'],
                                tiebreaks=plan['tiebreaks'],
                                user_policies=plan.get('policies'),
-                               seed=plan['seed'])
+                               seed=plan['seed'],
+                               release_yields=plan.get('release_yields'))
     try:
         hist = W.run()
         S = W.sched
@@ -239,6 +256,7 @@ def execute(plan):
         switches = S.schedule_signature()
         probes['contention'] = S.contention
         probes['preempt_fired'] = S.fired_preempts
+        probes['yield_at_lock_release'] = S.fired_release_yields
         for a, b, why, site in switches:
             if why == 'preempt' and site and site.startswith('engine.py'):
                 probes['preempt_inside_engine'] += 1
@@ -297,18 +315,20 @@ def execute(plan):
                                        plan['actors'][h['actor']]['cn']}})
     # ---- linearizability by sequential re-execution ---------------------
     if not S.aborted and not unanswered:
-        key = dict(((h['actor'], h['idx']), h) for h in complete)
-        per_actor = {}
-        order = []
-        if len(lock_order) == len(complete):
-            for name in lock_order:
-                ai = int(name[1:])
-                i = per_actor.get(ai, 0)
-                per_actor[ai] = i + 1
-                if (ai, i) in key:
-                    order.append(key[(ai, i)])
-        if len(order) != len(complete):
-            order = sorted(complete, key=lambda h: h['ret'])
+        # witness order: a request that entered the engine is placed at
+        # its first lock acquisition, a request answered by the session
+        # alone (it never took the lock) at its return
+        acq = {}
+        for e in events:
+            if e['ev'] == 'lock-acquire' and e.get('task'):
+                acq.setdefault(e['task'], []).append(e['seq'])
+
+        def lin_point(h):
+            for q in acq.get('s%d' % h['actor'], []):
+                if h['invoke'] < q < h['ret']:
+                    return q
+            return h['ret']
+        order = sorted(complete, key=lin_point)
         seq_out, dump_s = sequential(plan, order)
         ok = dump_s == dump_c and all(
             seq_out[(h['actor'], h['idx'])] == [h['sent']] for h in complete)
